@@ -22,10 +22,12 @@ def run_one(slot, name, patch, checks, args):
     if r.returncode != 0:
         return {"name": name, "error": "patch does not apply: " + r.stderr[-300:]}
     res = {"name": name, "checks": {}}
-    for cid in checks:
+    for cid in (checks[:1] if args.primary_only else checks):
         env = dict(os.environ, VERIF_REPO=wt, VERIF_EVIDENCE_DIR=f"{SCRATCH}/ev{slot}", VERIF_REPLAY_DIR=f"{SCRATCH}/rp{slot}")
         t0 = time.time()
-        cmd = f"{VERIF}/bin/check {cid} --tier quick --procs {args.procs} --wall {args.wall}"
+        if args.verif_seed is not None:
+            env["VERIF_SEED"] = str(args.verif_seed)
+        cmd = f"{VERIF}/bin/check {cid} --tier quick --procs {args.procs}" + ("" if args.full_budget else f" --wall {args.wall}")
         r = subprocess.run(cmd, shell=True, capture_output=True, text=True, env=env, cwd=VERIF)
         lines = [l for l in r.stdout.splitlines() if l.startswith("VIOLATION") or l.startswith("  kind=")]
         summary = [l for l in r.stdout.splitlines() if l.startswith(f"[{cid}]")]
@@ -57,6 +59,9 @@ def main():
     ap.add_argument("--dir", default="mutants")
     ap.add_argument("--only", default="")
     ap.add_argument("--out", default=None)
+    ap.add_argument("--verif-seed", type=int, default=None, help="VERIF_SEED for the check runs")
+    ap.add_argument("--primary-only", action="store_true", help="run only the first listed check of each entry")
+    ap.add_argument("--full-budget", action="store_true", help="use the tier's own wall budget instead of --wall")
     args = ap.parse_args()
     todo = []
     if args.dir == "mutants":
